@@ -283,6 +283,79 @@ fn gen_value(rng: &mut Rng, pool: &[ReplicatedValue]) -> ReplicatedValue {
     }
 }
 
+/// a later state of the same value on another replica: one operation of the value's own kind
+fn evolve_same_kind(rng: &mut Rng, m: &MRv) -> (MRv, &'static str) {
+    let mut x = m.clone();
+    let newer = m.t.saturating_add(rng.range(1, 5));
+    let rid = rng.range(1, 3);
+    let what = match &mut x.crdt {
+        MCrdt::Lww(l) => {
+            if rng.chance(1, 3) {
+                *l = crate::enc::MLww { v: None, t: newer, r: rid, tomb: true };
+                "lww:deleted"
+            } else {
+                *l = crate::enc::MLww { v: Some(format!("w{}", rng.below(9)).into_bytes()), t: newer, r: rid, tomb: false };
+                "lww:overwritten"
+            }
+        }
+        MCrdt::G(c) => {
+            { let e = c.entry(rid).or_insert(0); *e = e.saturating_add(rng.range(1, 4)); }
+            "gcounter:incremented"
+        }
+        MCrdt::P(p, n) => {
+            { let e = if rng.chance(1, 2) { p.entry(rid).or_insert(0) } else { n.entry(rid).or_insert(0) }; *e = e.saturating_add(rng.range(1, 4)); }
+            "pncounter:changed"
+        }
+        MCrdt::S(s) => {
+            s.insert(format!("e{}", rng.below(9)));
+            "gset:grown"
+        }
+        MCrdt::O(e, next) => {
+            match rng.below(4) {
+                0 if !e.is_empty() => {
+                    // every element removed: no live element, the sequence counters stay
+                    e.clear();
+                    "orset:emptied"
+                }
+                1 if !e.is_empty() => {
+                    let k = e.keys().nth(rng.below(e.len() as u64) as usize).unwrap().clone();
+                    e.remove(&k);
+                    "orset:element-removed"
+                }
+                2 => {
+                    // an add that was removed again: only the counter moved
+                    let c = next.entry(rid).or_insert(0);
+                    *c = c.saturating_add(1);
+                    "orset:counter-only"
+                }
+                _ => {
+                    let c = next.entry(rid).or_insert(0);
+                    let seq = *c;
+                    *c = c.saturating_add(1);
+                    e.entry(format!("e{}", rng.below(9))).or_default().insert((rid, seq));
+                    "orset:element-added"
+                }
+            }
+        }
+        MCrdt::H(h) => {
+            if !h.is_empty() && rng.chance(1, 3) {
+                let k = h.keys().nth(rng.below(h.len() as u64) as usize).unwrap().clone();
+                h.insert(k, crate::enc::MLww { v: None, t: newer, r: rid, tomb: true });
+                "hash:field-deleted"
+            } else {
+                h.insert(format!("f{}", rng.below(6)), crate::enc::MLww { v: Some(b"x".to_vec()), t: newer, r: rid, tomb: false });
+                "hash:field-written"
+            }
+        }
+    };
+    // a local write stamps the value
+    if rng.chance(2, 3) {
+        x.t = newer;
+        x.r = rid;
+    }
+    (x, what)
+}
+
 fn build(content: &[(String, ReplicatedValue)], rng: &mut Rng) -> State {
     // fresh map (fresh RandomState), shuffled insertion order; some entries are inserted in two
     // steps (insert, then remove + re-insert as apply_remote_delta does)
@@ -1284,6 +1357,42 @@ fn corpus(out: &mut Out, rng: &mut Rng, thorough: bool) {
         ("vc", base.clone(), MRv { vc: Some(vc), ..base.clone() }),
         ("rf", base.clone(), MRv { rf: Some(5), ..base.clone() }),
     ];
+    // (2a) every same-kind evolution class once (a value and what another replica made of it), single key,
+    // depth 0 and 2, ample limit: digests must differ, one sync must leave merge(own, other) on both sides
+    {
+        let mut bases: Vec<MRv> = vec![base.clone(), h("f", 1)];
+        let mut g = BTreeMap::new(); g.insert(1u64, 2u64);
+        bases.push(MRv { crdt: MCrdt::G(g.clone()), ..base.clone() });
+        bases.push(MRv { crdt: MCrdt::P(g.clone(), BTreeMap::new()), ..base.clone() });
+        let mut st = BTreeSet::new(); st.insert("e1".to_string());
+        bases.push(MRv { crdt: MCrdt::S(st), ..base.clone() });
+        let mut el = BTreeMap::new();
+        let mut t1 = BTreeSet::new(); t1.insert((1u64, 0u64));
+        let mut t2 = BTreeSet::new(); t2.insert((2u64, 0u64)); t2.insert((1u64, 1u64));
+        el.insert("e1".to_string(), t1); el.insert("e2".to_string(), t2);
+        let mut nx = BTreeMap::new(); nx.insert(1u64, 2u64); nx.insert(2u64, 1u64);
+        bases.push(MRv { crdt: MCrdt::O(el, nx), ..base.clone() });
+        let mut seen_classes: BTreeSet<&'static str> = BTreeSet::new();
+        for bv in &bases {
+            for _ in 0..40 {
+                let (ev, what) = evolve_same_kind(rng, bv);
+                if !seen_classes.insert(what) {
+                    continue;
+                }
+                for (x, y) in [(bv.clone(), ev.clone()), (ev.clone(), bv.clone())] {
+                    let mut a: State = HashMap::new();
+                    a.insert("h".into(), x.to_real());
+                    let mut b: State = HashMap::new();
+                    b.insert("h".into(), y.to_real());
+                    let src = format!("corpus: single key, same-kind evolution {}", what);
+                    let p = Pair { a, b, depth: if what.len() % 2 == 0 { 0 } else { 2 } };
+                    digest_ops(out, rng, &p, &src);
+                    sync_ops(out, p, 1000, 2, &src);
+                }
+                out.count(&format!("corpus:evolution:{}", what));
+            }
+        }
+    }
     // (2b) the same shape with two expiry values whose byte streams COLLIDE under SipHash-1-3: false "in sync"
     for depth in [0usize, 3] {
         let mut a: State = HashMap::new();
@@ -1571,13 +1680,20 @@ fn scenario(out: &mut Out, rng: &mut Rng, idx: u64) {
     let mut other = content.clone();
     let nm = rng.range(1, 3);
     for _ in 0..nm {
-        let kind = rng.below(9);
-        out.count(&format!("mutation:{}", ["value", "value", "remove", "add", "expiry", "crdt-same-stamp", "vc", "rf", "stamp-only"][kind as usize]));
+        let kind = rng.below(11);
+        out.count(&format!("mutation:{}", ["value", "value", "remove", "add", "expiry", "crdt-same-stamp", "vc", "rf", "stamp-only", "same-kind-evolution", "same-kind-evolution"][kind as usize]));
         if other.is_empty() || kind == 3 {
             other.push((format!("new{}", rng.below(50)), gen_value(rng, &pool)));
             continue;
         }
-        let i = rng.below(other.len() as u64) as usize;
+        let mut i = rng.below(other.len() as u64) as usize;
+        if kind >= 9 && rng.chance(2, 3) {
+            // prefer a non-string value, if there is one
+            let ns: Vec<usize> = (0..other.len()).filter(|j| !matches!(MRv::from_real(&other[*j].1).crdt, MCrdt::Lww(_))).collect();
+            if !ns.is_empty() {
+                i = *rng.pick(&ns);
+            }
+        }
         let m = MRv::from_real(&other[i].1);
         match kind {
             0 | 1 => other[i].1 = gen_value(rng, &pool),
@@ -1598,6 +1714,15 @@ fn scenario(out: &mut Out, rng: &mut Rng, idx: u64) {
                 other[i].1 = MRv { vc: Some(vc), ..m }.to_real();
             }
             7 => other[i].1 = MRv { rf: Some(m.rf.unwrap_or(1).wrapping_add(1)), ..m }.to_real(),
+            9 | 10 => {
+                // what the OTHER replica did to the same value since the two last agreed: an operation of
+                // the value's own kind (the states two replicas really hold after a partition) — an
+                // OR-set emptied / one element removed / one added, a counter bumped, a set grown, a
+                // hash field written or deleted, a register overwritten or deleted
+                let (evolved, what) = evolve_same_kind(rng, &m);
+                out.count(&format!("evolution:{}", what));
+                other[i].1 = evolved.to_real();
+            }
             _ => other[i].1 = MRv { r: m.r.wrapping_add(1), ..m }.to_real(),
         }
     }
